@@ -274,6 +274,13 @@ func run(r *report.Report) {
 	st10 := explore.Explore(explore.Config{Harness: "C10.hist", Params: fmt.Sprintf(`{"Depth":%d,"IDs":2,"QOS":[0,1],"Faults":true}`, d10), Bound: 0, Workers: report.Workers(), Deadline: r.Deadline(), OnlyClauses: []string{"callback-order"}})
 	r.AddExploration("client-callback-order", "history", fmt.Sprintf("the C10 client harness (all broker scripts of depth %d, 2 ids, QoS 0/1, write faults) with only the callback-order clause", d10), st10,
 		"QoS 0/1 messages reach the application callback in the order the broker sent them; non-trivial = fault/retransmission/resume events", "fault", "retransmission", "resume")
+	d9 := 8
+	if th {
+		d9 = 10
+	}
+	st9 := explore.Explore(explore.Config{Harness: "C09.hist", Params: fmt.Sprintf(`{"Depth":%d,"QOS":[1,2],"Wrap":true}`, d9), Bound: 0, Workers: report.Workers(), Deadline: r.Deadline(), OnlyClauses: []string{"retransmission-order"}})
+	r.AddExploration("client-retransmission-order", "history", fmt.Sprintf("the C09 client harness (all histories of depth %d, QoS 1/2, the session's id counter starting at 65534) with only the retransmission-order clause", d9), st9,
+		"after every resume the client's retransmissions (PUBLISH dup / PUBREL) come in the order of the original transmissions, also across the 16-bit wrap of the packet ids; non-trivial = retransmission events", "retransmission")
 	st17 := explore.Explore(explore.Config{Harness: "C17.hist", Params: fmt.Sprintf(`{"Depth":%d,"Faults":true,"Stops":true}`, d17), Bound: 0, Workers: report.Workers(), Deadline: r.Deadline(), OnlyClauses: []string{"commands-fifo"}})
 	r.AddExploration("service-command-fifo", "history", fmt.Sprintf("the C17 service harness (all histories of depth %d incl. failures and Stop/Start) with only the commands-fifo clause", d17), st17,
 		"the command packets the broker sees are a subsequence of the commands in issue order; non-trivial = fault/stop events", "fault", "stopped", "restarted")
